@@ -2,25 +2,42 @@ import KG.Model.LocalLimiter
 /-!
 # C05 — the property as a judge over a history and the answers observed for it
 
-The judge knows nothing of limiter objects or counters. It keeps, for every configured
-`(cluster, schema name)`, the schema in force and the list `inflight` of requests *admitted under it
-since it last changed type (or was created) and not yet finished* — for a schema that is a max-in-flight
-schema now, that is exactly "admitted under it since it last became a max-in-flight schema".
+Two judges over the same bookkeeping.
 
-For each observed answer of an arriving request it demands
+**The bookkeeping** (`SState`) knows nothing of limiter objects or counters. It keeps, for every configured
+`(cluster, schema name)`, the schema in force and the list `inflight` of requests *admitted under it since it
+last changed type (or was created) and not yet finished* — for a schema that is a max-in-flight schema now,
+that is exactly "admitted under it since it last became a max-in-flight schema".
 
-* schema currently max-in-flight with limit `M` (the `uint32` the code uses): admitted **iff** fewer than
-  `M` requests of `inflight` are unfinished (`≤ M` in flight at every admission, with the limit in force
-  at that moment — so after a change to `M'` requests are admitted only while fewer than `M'` are in
-  flight — and never refused while a slot is free: no slot leaks, once all have finished `M` are
-  admitted again);
-* exempt schema, no such schema, or no schema name: admitted (so nothing configured for *another* schema
-  or cluster can refuse it);
-* token bucket: no demand (C06).
+**`judge` — the property, read from its text** (what the harness applies to the real code). The property
+speaks about "a max-requests-in-flight schema with limit `M`". That is a schema as validation admits it:
+exactly one kind set (a global part only beside its local part), `M = max ≥ 0`, names unique in the list. For
+such a schema (`schemaValid`, not `tainted`):
 
-Reading chosen: a `Sync` is the sequence of its schemas applied in order (validation forbids duplicate
-names; with duplicates each entry counts as one reconfiguration), names absent from the new list are
-deleted, re-submitting the list in force is not a reconfiguration.
+* `|inflight| ≥ M` ⇒ the arriving request must be **refused** (never more than `M` admitted and unfinished;
+  with the limit in force at that moment, so after a change to `M'` only while fewer than `M'` are in flight);
+* `|inflight| < M` and, since the last moment at which nothing was in flight under it, no request has finished
+  (`fresh`) ⇒ it must be **admitted** ("once all requests have finished `M` new ones are admitted again": no
+  slot leaked, no other schema's or cluster's load counted). A refusal at any other moment is not judged: the
+  text does not forbid an implementation that is stricter than necessary.
+* an exempt schema, or no schema name at all ("if not set, there is no limit") ⇒ admitted;
+* token bucket ⇒ no demand (C06).
+
+Where the text says nothing the judge demands **nothing**, in either direction: a negative `max` (the code casts
+it to `uint32`: 4294967295 slots — an implementation choice, not the property), several kinds or none set,
+a global part without its local part, a name occurring twice in one list or configured by such an invalid schema
+at any time since it was last absent (`tainted`: whether the schema kept or changed its generation is then
+unspecified), a policy naming a schema that does not exist.
+
+**`judgeExact` — what the current code does, everywhere**: admitted **iff** `|inflight| < uint32(max)`, for
+every schema the code treats as max-in-flight (its own priority of kinds, duplicates applied in order), admitted
+whenever no limiter applies. `judge` accepts whatever `judgeExact` accepts (`check_of_exact`); the model is
+proved to satisfy `judgeExact` (so also `judge`), and a difference between model and code is a broken tie,
+never a judge failure.
+
+Reading common to both: a `Sync` is the sequence of its schemas applied in order, names absent from the new
+list are deleted (a later re-addition starts a new generation), re-submitting the list in force is not a
+reconfiguration, a limiter-mode switch is not a reconfiguration.
 -/
 namespace KG.Spec.LocalLimiter
 open KG KG.Model.LocalLimiter
@@ -71,8 +88,8 @@ def specSync (σ : SState) (c : Str) (schemas : List Schema) : SState :=
 def limitOf (s : Schema) : Option Nat :=
   if guessType s = .maxInflight then s.mi.map toU32 else none
 
-/-- What the property demands of the answer to a request arriving for `(c, n)`; `none` = no demand. -/
-def demand (σ : SState) (c n : Str) : Option Bool :=
+/-- What the *current code* answers to a request arriving for `(c, n)` (`none`: token bucket, an input). -/
+def demandExact (σ : SState) (c n : Str) : Option Bool :=
   if n = [] then some true
   else match σ.entries c n with
     | none => some true
@@ -110,9 +127,9 @@ def specRelease (σ : SState) (i : Nat) : SState :=
     else σ
 
 /-- Is the observed answer `out` to `op` acceptable in spec state `σ`? -/
-def check (σ : SState) : Op → Out → Bool
+def checkExact (σ : SState) : Op → Out → Bool
   | .acquire c n _, .acquired b =>
-    match demand σ c n with
+    match demandExact σ c n with
     | none => true
     | some d => b == d
   | .acquire _ _ _, .panic _ => false          -- an arriving request never brings the gateway down
@@ -125,13 +142,165 @@ def specStep (σ : SState) : Op → Out → SState
   | _, _ => σ
 
 /-- Index of the first answer that breaks the property, if any. A history ends at the first panic. -/
-def judgeFrom (σ : SState) (k : Nat) : List Op → List Out → Option Nat
+def judgeExactFrom (σ : SState) (k : Nat) : List Op → List Out → Option Nat
   | op :: ops, out :: outs =>
-    if check σ op out then
-      if out.isPanic then none else judgeFrom (specStep σ op out) (k + 1) ops outs
+    if checkExact σ op out then
+      if out.isPanic then none else judgeExactFrom (specStep σ op out) (k + 1) ops outs
     else some k
   | _, _ => none
 
-def judge (ops : List Op) (outs : List Out) : Option Nat := judgeFrom SState.init 0 ops outs
+def judgeExact (ops : List Op) (outs : List Out) : Option Nat := judgeExactFrom SState.init 0 ops outs
+
+
+/-! ## the property's own judge -/
+
+/-- a schema as validation admits it: exactly one kind, a global part only beside its local part, `max ≥ 0` -/
+def schemaValid (s : Schema) : Bool :=
+  ((if s.exempt then 1 else 0) + (if s.mi.isSome then 1 else 0) + (if s.tb.isSome then 1 else 0) == (1 : Nat))
+    && (s.gmi.isNone || s.mi.isSome) && (s.gtb.isNone || s.tb.isSome)
+    && (match s.mi with
+        | some m => decide (0 ≤ m)
+        | none => true)
+
+structure PState where
+  σ : SState
+  /-- since the last moment at which nothing was in flight under the schema, no request under it has finished -/
+  fresh : Str → Str → Bool
+  /-- since the name was last absent it has been configured by an invalid schema or twice in one list -/
+  tainted : Str → Str → Bool
+
+def PState.init : PState := { σ := SState.init, fresh := fun _ _ => true, tainted := fun _ _ => false }
+
+def freshAfter (old : Bool) (before after : Option Entry) : Bool :=
+  match after with
+  | none => true
+  | some e' =>
+    if e'.inflight.isEmpty then true
+    else match before with
+      | none => true
+      | some e => if e'.inflight.length < e.inflight.length then false else old
+
+def taintAfter (old : Bool) (n : Str) (schemas : List Schema) : Bool :=
+  let mine := schemas.filter (fun s => s.name = n)
+  if mine.isEmpty then false
+  else old || decide (1 < mine.length) || mine.any (fun s => !schemaValid s)
+
+def pStep (p : PState) (op : Op) (out : Out) : PState :=
+  let σ' := specStep p.σ op out
+  { σ := σ',
+    fresh := fun c n => freshAfter (p.fresh c n) (p.σ.entries c n) (σ'.entries c n),
+    tainted := fun c n =>
+      match op, out with
+      | .sync c' schemas, .synced =>
+        if c' = c ∧ p.σ.last c ≠ schemas then taintAfter (p.tainted c n) n schemas else p.tainted c n
+      | _, _ => p.tainted c n }
+
+/-- What the property demands of the answer to a request arriving for `(c, n)`; `none` = no demand. -/
+def demand (p : PState) (c n : Str) : Option Bool :=
+  if n = [] then some true
+  else match p.σ.entries c n with
+    | none => none
+    | some e =>
+      if p.tainted c n || !schemaValid e.config then none
+      else match guessType e.config with
+        | .exempt => some true
+        | .tokenBucket => none
+        | .maxInflight =>
+          match e.config.mi with
+          | none => none
+          | some m =>
+            -- `valid` ⇒ `0 ≤ m`, so `toU32 m` is the limit `M = m` itself
+            if e.inflight.length < toU32 m then (if p.fresh c n then some true else none) else some false
+
+def check (p : PState) : Op → Out → Bool
+  | .acquire c n _, .acquired b =>
+    match demand p c n with
+    | none => true
+    | some d => b == d
+  | .acquire _ _ _, .panic _ => false
+  | _, _ => true
+
+/-- Index of the first answer that breaks the property, if any. A history ends at the first panic. -/
+def judgeFrom (p : PState) (k : Nat) : List Op → List Out → Option Nat
+  | op :: ops, out :: outs =>
+    if check p op out then
+      if out.isPanic then none else judgeFrom (pStep p op out) (k + 1) ops outs
+    else some k
+  | _, _ => none
+
+def judge (ops : List Op) (outs : List Out) : Option Nat := judgeFrom PState.init 0 ops outs
+
+/-- the property demands nothing the exact description of the code does not also say -/
+theorem demand_of_exact (p : PState) (c n : Str) (d : Bool) (h : demand p c n = some d) :
+    demandExact p.σ c n = some d := by
+  unfold demand at h
+  unfold demandExact
+  by_cases hn : n = []
+  · simp only [hn, if_true] at h ⊢; exact h
+  · simp only [hn, if_false] at h ⊢
+    cases he : p.σ.entries c n with
+    | none => rw [he] at h; cases h
+    | some e =>
+      rw [he] at h
+      simp only at h ⊢
+      split at h
+      · cases h
+      · cases hg : guessType e.config with
+        | exempt => rw [hg] at h; exact h
+        | tokenBucket => rw [hg] at h; cases h
+        | maxInflight =>
+          rw [hg] at h
+          simp only at h ⊢
+          cases hm : e.config.mi with
+          | none => rw [hm] at h; cases h
+          | some m =>
+            rw [hm] at h
+            simp only at h ⊢
+            by_cases hlt : e.inflight.length < toU32 m
+            · simp only [hlt, if_true] at h
+              split at h
+              · injection h with h; subst h; simp [hlt]
+              · cases h
+            · simp only [hlt, if_false] at h
+              injection h with h; subst h; simp [hlt]
+
+theorem check_of_exact (p : PState) (op : Op) (out : Out) (h : checkExact p.σ op out = true) :
+    check p op out = true := by
+  cases op with
+  | acquire c n tb =>
+    cases out with
+    | acquired b =>
+      simp only [check]
+      cases hd : demand p c n with
+      | none => rfl
+      | some d =>
+        have := demand_of_exact p c n d hd
+        simp only [checkExact, this] at h
+        exact h
+    | synced => rfl
+    | released d => rfl
+    | panic m => simp [checkExact] at h
+  | sync c l => cases out <;> rfl
+  | release i => cases out <;> rfl
+  | reset c m => cases out <;> rfl
+
+theorem judgeFrom_of_exact (p : PState) (k : Nat) (ops : List Op) (outs : List Out)
+    (h : judgeExactFrom p.σ k ops outs = none) : judgeFrom p k ops outs = none := by
+  induction ops generalizing p k outs with
+  | nil => simp [judgeFrom]
+  | cons op ops ih =>
+    cases outs with
+    | nil => simp [judgeFrom]
+    | cons out outs =>
+      simp only [judgeExactFrom] at h
+      by_cases hc : checkExact p.σ op out = true
+      · simp only [hc, if_true] at h
+        simp only [judgeFrom, check_of_exact p op out hc, if_true]
+        by_cases hp : out.isPanic = true
+        · simp [hp]
+        · simp only [hp, if_false] at h ⊢
+          exact ih (pStep p op out) (k + 1) outs h
+      · simp only [hc, if_false] at h
+        cases h
 
 end KG.Spec.LocalLimiter
